@@ -1,10 +1,14 @@
 """Contracts of oslo_policy/_checks.py: evaluation of check trees (C01 item 1, C04, C05, C06, C14, C15 printers)."""
 import z3
 from pyvc.contract import Contract, LoopSpec
+from pyvc.values import qforall
 from pyvc.values import (V, Int, Str, Bool, SeqV, NONE, ABSENT, TRUE, FALSE, truthy, clsof, keys_of,
                          mk_bool, mk_str, mk_int, mk_seq)
 from specs.ev import EV, EVX, EV3, EVX3, D, okD, okN
-from .util import args5, eval_defs, is_check, all_checks, forall_idx, exists_idx, EVAL_RAISES
+from specs.strings import fmt, fmt_ok, wfp, is_literal, litval, walk, jsonlike
+from specs.rules import lookup
+from pyvc.builtins_ import f_lower, f_split
+from .util import rules_store_pre, mapping, json_axioms, walk_unfold, args5, eval_defs, is_check, all_checks, forall_idx, exists_idx, EVAL_RAISES
 
 
 def register(reg, stubs, world):
@@ -122,3 +126,131 @@ def register(reg, stubs, world):
         return [('all-earlier-denied', forall_idx(L.i, lambda k: okN(L.elem(k), t, c, e, cur), 'inv'))]
     reg.add(Contract('_checks:OrCheck.__call__', pre=conn_pre, post=or_post, defs=eval_defs, raises=EVAL_RAISES,
                      loops={1: LoopSpec(or_inv)}, props=('C01', 'C06')))
+
+    # ------------------------------------------------------------------ rule:NAME  (C06)
+    def rule_pre(cx):
+        s, t, c, e, cur = args5(cx)
+        eng, st = cx.eng, cx.st0
+        return [('match-is-a-string', V.is_str(cx.old(s, 'match'))),
+                ('enforcer-is-an-object', V.is_obj(e))] + rules_store_pre(eng, st, cx.old(e, 'rules'))
+
+    def rule_post(cx, out):
+        s, t, c, e, cur = args5(cx)
+        eng, st = cx.eng, cx.st0
+        found, child = lookup(eng, st, cx.old(e, 'rules'), cx.old(s, 'match'))
+        KE = eng.cid('KeyError')
+        if out.kind == 'ret':
+            return [('undefined-reference-denies', z3.Implies(z3.Not(found), out.value == FALSE)),
+                    ('defined-reference-is-transparent',
+                     z3.Implies(found, z3.Or(
+                         z3.And(EVX(child, t, c, e, cur) == 0, out.value == EV(child, t, c, e, cur)),
+                         z3.And(EVX(child, t, c, e, cur) == KE, out.value == FALSE))))]
+        return [('propagates-only-the-definitions-exception',
+                 z3.And(found, EVX(child, t, c, e, cur) == eng.cid(out.exc.cname)))]
+    reg.add(Contract('_checks:RuleCheck.__call__', pre=rule_pre, post=rule_post, defs=eval_defs,
+                     raises=('$OtherException',), props=('C06', 'C03'),
+                     assumptions=('a KeyError raised inside the referenced definition is indistinguishable from an '
+                                  'undefined reference and denies (stated in the contract, outside C06\'s quantifier)',)))
+
+    # ------------------------------------------------------------------ role:X  (C04)
+    def role_pre(cx):
+        s, t, c, e, cur = args5(cx)
+        eng, st = cx.eng, cx.st0
+        m = cx.old(s, 'match')
+        cm = eng.map_of(st, c)
+        roles = z3.Select(cm, z3.StringVal('roles'))
+        rs = eng.seq_of(st, roles)
+        j = z3.Int('rp!j')
+        return [('match-is-a-string-with-well-formed-placeholders', z3.And(V.is_str(m), wfp(V.s(m)))),
+                ('target-is-a-mapping', mapping(eng, st, t)),
+                ('creds-is-a-mapping', mapping(eng, st, c)),
+                ('roles-if-present-is-a-list-of-strings',
+                 z3.Implies(roles != ABSENT, z3.And(
+                     eng.is_listlike(st, roles),
+                     qforall([j], z3.Implies(z3.And(j >= 0, j < z3.Length(rs)), V.is_str(rs[j]))))))]
+
+    def role_post(cx, out):
+        s, t, c, e, cur = args5(cx)
+        eng, st = cx.eng, cx.st0
+        if out.kind != 'ret':
+            return [z3.BoolVal(False)]
+        m = V.s(cx.old(s, 'match'))
+        tm = eng.map_of(st, t)
+        roles = z3.Select(eng.map_of(st, c), z3.StringVal('roles'))
+        rs = eng.seq_of(st, roles)
+        want = f_lower(fmt(m, tm))
+        holds = exists_idx(z3.Length(rs), lambda j: f_lower(V.s(rs[j])) == want, 'role')
+        return [('bool', z3.Or(out.value == TRUE, out.value == FALSE)),
+                ('allows-iff-role-held-ignoring-case',
+                 (out.value == TRUE) == z3.And(fmt_ok(m, tm), roles != ABSENT, holds))]
+    reg.add(Contract('_checks:RoleCheck.__call__', pre=role_pre, post=role_post, defs=eval_defs, props=('C04', 'C14')))
+
+    # ------------------------------------------------------------------ generic lhs:rhs  (C05, C14)
+    def find_pre(cx):
+        eng, st = cx.eng, cx.st0
+        tv, segs, m = cx['test_value'], cx['path_segments'], cx['match']
+        sq = eng.seq_of(st, segs)
+        j = z3.Int('fp!j')
+        return [('value-is-json-like', z3.And(jsonlike(tv), z3.Not(V.is_obj(tv)))),
+                ('segments-is-a-list-of-strings', z3.And(
+                    eng.is_listlike(st, segs),
+                    qforall([j], z3.Implies(z3.And(j >= 0, j < z3.Length(sq)), V.is_str(sq[j]))))),
+                ('match-is-a-string', V.is_str(m))]
+
+    def find_axioms(cx):
+        eng, st = cx.eng, cx.st0
+        tv, segs, m = cx['test_value'], cx['path_segments'], cx['match']
+        return json_axioms(eng, tv) + [walk_unfold(eng, tv, eng.seq_of(st, segs), V.s(m))]
+
+    def find_post(cx, out):
+        eng, st = cx.eng, cx.st0
+        if out.kind != 'ret':
+            return [z3.BoolVal(False)]
+        tv, segs, m = cx['test_value'], cx['path_segments'], cx['match']
+        sq = eng.seq_of(st, segs)
+        return [('is-walk', out.value == mk_bool(walk(tv, sq, V.s(m))))]
+
+    def find_result(cx, st):
+        return cx.eng.fresh('found')
+
+    def find_inv(L):
+        # no earlier element matched (the remaining segments are the function's local at the loop)
+        eng = L.eng
+        rest = eng.seq_of(L.st, L.st.loc['path_segments'])
+        m = V.s(L.cx['match'])
+        return [('no-earlier-element-matched',
+                 forall_idx(L.i, lambda k: z3.Not(walk(L.elem(k), rest, m)), 'finv'))]
+    reg.add(Contract('_checks:GenericCheck._find_in_dict', pre=find_pre, post=find_post,
+                     loops={1: LoopSpec(find_inv)}, props=('C05', 'C14'), axioms=find_axioms,
+                     doc='equals walk(): dict step, missing key or non-container denies, lists fan out'))
+
+    def gen_pre(cx):
+        s, t, c, e, cur = args5(cx)
+        eng, st = cx.eng, cx.st0
+        m, k = cx.old(s, 'match'), cx.old(s, 'kind')
+        return [('match-is-a-string-with-well-formed-placeholders', z3.And(V.is_str(m), wfp(V.s(m)))),
+                ('kind-is-a-string', V.is_str(k)),
+                ('target-is-a-mapping', mapping(eng, st, t)),
+                ('creds-is-json-like', z3.And(jsonlike(c), V.is_dict(c)))]
+
+    def gen_post(cx, out):
+        s, t, c, e, cur = args5(cx)
+        eng, st = cx.eng, cx.st0
+        if out.kind != 'ret':
+            return [z3.BoolVal(False)]
+        m, k = V.s(cx.old(s, 'match')), V.s(cx.old(s, 'kind'))
+        tm = eng.map_of(st, t)
+        rhs = fmt(m, tm)
+        segs = f_split(k, z3.StringVal('.'))
+        from pyvc.values import pystr
+        return [('bool', z3.Or(out.value == TRUE, out.value == FALSE)),
+                ('missing-target-key-denies', z3.Implies(z3.Not(fmt_ok(m, tm)), out.value == FALSE)),
+                ('literal-left-side-compares-its-string-form',
+                 z3.Implies(z3.And(fmt_ok(m, tm), is_literal(k)),
+                            (out.value == TRUE) == (rhs == z3.If(V.is_str(litval(k)), V.s(litval(k)), pystr(litval(k)))))),
+                ('path-left-side-walks-the-credentials',
+                 z3.Implies(z3.And(fmt_ok(m, tm), z3.Not(is_literal(k))),
+                            (out.value == TRUE) == walk(c, segs, rhs)))]
+    reg.add(Contract('_checks:GenericCheck.__call__', pre=gen_pre, post=gen_post, defs=eval_defs,
+                     axioms=lambda cx: json_axioms(cx.eng, args5(cx)[2]),
+                     props=('C05', 'C14')))
